@@ -167,6 +167,32 @@ def check(repo: Repo, rep: Report) -> None:
                 ok = True
     rep.ob("N3-auto-connect", asub, "connect when the incremented counter equals subscriber_count", ok,
            "auto_connect does not connect exactly when the n-th subscriber arrives")
+    # the counter starts at 0 and moves by exactly one per arrival; the decision is `counter == n and not connected`
+    def _init_of(name):
+        vs = [n_.value for n_ in ac.direct_nodes() if isinstance(n_, (ast.Assign, ast.AnnAssign)) and n_.value is not None
+              and u(n_.targets[0] if isinstance(n_, ast.Assign) else n_.target) == name]
+        return [v.elts[0] if isinstance(v, ast.List) and len(v.elts) == 1 else v for v in vs]
+    for cn in cnts2:
+        iv = _init_of(cn)
+        rep.ob("N3-auto-connect", ac, f"subscriber counter `{cn}` starts at 0", len(iv) == 1 and isinstance(iv[0], ast.Constant) and iv[0].value == 0 and type(iv[0].value) is int,
+               f"auto_connect's subscriber counter does not start at 0: it connects one subscriber early / late (or never) relative to subscriber_count")
+    for s_ in inc2:
+        rep.ob("N3-auto-connect", asub, f"`{short(s_.node)}`: one per arriving subscriber", isinstance(s_.node.value, ast.Constant) and s_.node.value.value == 1 and not s_.ctx.branch,
+               "the subscriber counter is not advanced by exactly one for every arriving subscriber")
+    flags_neg = []
+    if c2:
+        atoms_ = list(c2[0].ctx.guards)
+        eq_atoms = [e for e, p in atoms_ if p and isinstance(e, ast.Compare) and eq_n(e)]
+        flags_neg = [cell_name(e) for e, p in atoms_ if not p and cell_name(e) and not isinstance(e, ast.Compare)]
+        rep.ob("N3-auto-connect", asub, f"connect under {[short(e, 40) + ('' if p else ' (negated)') for e, p in atoms_]}: `counter == subscriber_count` and `not connected` both required",
+               bool(eq_atoms) and bool(flags_neg),
+               "auto_connect's connect decision is not `counter == subscriber_count and not connected`: with `or` it connects at the first "
+               "subscriber (or again at every later one)")
+    if True:
+        for fl in flags_neg:
+            iv = _init_of(fl)
+            rep.ob("N3-auto-connect", ac, f"connected flag `{fl}` starts False", len(iv) == 1 and isinstance(iv[0], ast.Constant) and iv[0].value is False,
+                   "auto_connect's connected flag does not start False: the n-th subscriber never triggers connect()")
     own2 = [s for s in sites(asub) if isinstance(s.node, ast.Assign) and method_call(s.node.value, selfs, "subscribe")]
     rep.ob("N3-auto-connect", asub, "the connect decision is taken before the subscriber is subscribed", decided_before(asub, c2, own2, set(cnts2)),
            "auto_connect tests its subscriber counter only after subscribing the observer (a re-entrant subscriber is then counted first)")
